@@ -608,5 +608,352 @@ theorem scrollLoopG_step (oracle : Oracle) (F F' : Int → Int → Option Cell) 
         · exact Or.inl hx
         · exact Or.inr (Or.inr hx)
 
+/-! ### the application's half: the children moved -/
+
+/-- `t'` is `t` with every window of `cs` moved by `(-d, -r)`. -/
+structure Moved (t t' : Tree) (cs : List Id) (d r : Int) : Prop where
+  size : t'.wins.size = t.wins.size
+  other : ∀ x, x ∉ cs → t'.wins[x]? = t.wins[x]?
+  moved : ∀ ch ∈ cs, ∀ cw, t.wins[ch]? = some cw →
+    t'.wins[ch]? = some { cw with rect := { cw.rect with top := cw.rect.top - d, left := cw.rect.left - r } }
+
+theorem setGeometry_spec (t : Tree) (id : Id) (w : Win) (g : Rect) (hg : WinTree.get t id = .ok w) :
+    ∃ t1 b, WinTree.setGeometry t id g = .ok (t1, b) ∧ t1.wins[id]? = some { w with rect := g } ∧
+      (∀ x, x ≠ id → t1.wins[x]? = t.wins[x]?) ∧ t1.wins.size = t.wins.size ∧ t1.root = t.root ∧ SameButG t t1 id := by
+  have hw := get_ok hg
+  unfold WinTree.setGeometry
+  rw [hg]
+  simp only [bind, Bind.bind]
+  by_cases hrr : w.rect = g
+  · refine ⟨t, false, by simp [hrr, pure, Pure.pure], ?_, fun _ _ => rfl, rfl, rfl, ⟨fun _ _ => rfl, rfl, rfl⟩⟩
+    rw [hw.1, ← hrr]
+  · refine ⟨WinTree.set t id { w with rect := g }, true, by simp [hrr, pure, Pure.pure],
+      set_wins_self t id w _ hw.1, fun x hx => set_wins_other t id x _ hx, set_size _ _ _, rfl, ?_⟩
+    refine ⟨fun x hx => by rw [set_wins_other t id x _ hx], ?_, set_size _ _ _⟩
+    rw [set_wins_self t id w _ hw.1, hw.1]
+    rfl
+
+/-- The structural invariants of the window store that a geometry change of a window other than the root keeps. -/
+structure WStruct (t : Tree) : Prop where
+  ok : TreeOk t
+  ord : Ordered t
+  pos : RootsPositive t
+  pc : ParentListed t
+
+theorem wstruct_sameButG {t t' : Tree} {id : Id} (h : SameButG t t' id) (hid : id ≠ 0) (hs : WStruct t) : WStruct t' :=
+  have hst := struct_sameButG h hs.ok.nodup hs.ok.noSelf
+  { ok := ⟨wfp_sameButG h hs.ok.wf, hst.1, hst.2, onlyRoot_sameButG h hs.ok.onlyRoot, rootWin_sameButG h hid hs.ok.rootWin⟩
+    ord := ordered_sameButG h hs.ord
+    pos := rootsPositive_sameButG h hid hs.ok.onlyRoot hs.pos
+    pc := parentListed_sameButG h hs.pc }
+
+theorem moveChildren_spec (d r : Int) : ∀ (cs : List Id) (t t' : Tree), moveChildren d r t cs = .ok t' → cs.Nodup →
+    (∀ c ∈ cs, c ≠ 0) → WStruct t → Moved t t' cs d r ∧ t'.root = t.root ∧ WStruct t' := by
+  intro cs
+  induction cs with
+  | nil =>
+    intro t t' h _ _ hs
+    simp only [moveChildren] at h
+    cases h
+    exact ⟨⟨rfl, fun _ _ => rfl, fun _ h => by cases h⟩, rfl, hs⟩
+  | cons ch cs ih =>
+    intro t t' h hnd hnz hs
+    simp only [moveChildren, bind, Bind.bind] at h
+    cases hg : WinTree.get t ch with
+    | ub e => rw [hg] at h; cases h
+    | ok cw =>
+      rw [hg] at h
+      simp only at h
+      obtain ⟨t1, b, hsg, h1s, h1o, h1z, h1r, hsb⟩ := setGeometry_spec t ch cw
+        { cw.rect with top := cw.rect.top - d, left := cw.rect.left - r } hg
+      rw [hsg] at h
+      simp only at h
+      have hnd' := List.nodup_cons.1 hnd
+      obtain ⟨hm, hr, hs'⟩ := ih t1 t' h hnd'.2 (fun c hc => hnz c (List.mem_cons_of_mem _ hc))
+        (wstruct_sameButG hsb (hnz ch List.mem_cons_self) hs)
+      refine ⟨⟨hm.size.trans h1z, ?_, ?_⟩, hr.trans h1r, hs'⟩
+      · intro x hx
+        have hx1 : x ≠ ch := fun e => hx (by rw [e]; exact List.mem_cons_self)
+        have hx2 : x ∉ cs := fun e => hx (List.mem_cons_of_mem _ e)
+        rw [hm.other x hx2, h1o x hx1]
+      · intro c hc cw0 hcw0
+        rcases List.mem_cons.1 hc with rfl | hc
+        · have := get_ok hg
+          rw [this.1] at hcw0; cases hcw0
+          rw [hm.other c hnd'.1, h1s]
+        · have hne : c ≠ ch := fun e => hnd'.1 (by rw [← e]; exact hc)
+          exact hm.moved c hc cw0 (by rw [h1o c hne]; exact hcw0)
+
+/-! ### ownership in the tree with the children moved -/
+
+theorem ownerLoc_zero (t : Tree) (id : Id) (l c : Int) : ownerLoc t 0 id l c = none := rfl
+
+/-- A subtree that contains no moved window composes as before. -/
+theorem ownerLoc_moved_off (t0 t1 : Tree) (cs : List Id) (d r : Int) (hmv : Moved t0 t1 cs d r) (hwf : WFp t0) :
+    ∀ (n : Nat) (a : Id), (∀ k, Anc t0 a k → k ∉ cs) → ∀ x y, ownerLoc t1 n a x y = ownerLoc t0 n a x y := by
+  intro n
+  induction n with
+  | zero => intro a _ x y; rfl
+  | succ m ih =>
+    intro a ha x y
+    rw [ownerLoc_unfold, ownerLoc_unfold, hmv.other a (ha a (Anc.refl a))]
+    cases hw : t0.wins[a]? with
+    | none => rfl
+    | some aw =>
+      simp only
+      have hall : ∀ s ∈ aw.children, ownerLoc t1 m s (x - aw.rect.top) (y - aw.rect.left) =
+          ownerLoc t0 m s (x - aw.rect.top) (y - aw.rect.left) := by
+        intro s hs
+        obtain ⟨sw, hsw, hsp, _⟩ := hwf.child a aw hw s hs
+        exact ih s (fun k hk => ha k (hk.parent_up hsw hsp)) _ _
+      rw [findSome?_congr_mem _ _ _ hall]
+
+/-- A moved window shows at a cell what it showed, before the move, at the cell `(d, r)` away. -/
+theorem ownerLoc_moved_child (t0 t1 : Tree) (n : Nat) (ch : Id) (cw : Win) (d r : Int) (h0 : t0.wins[ch]? = some cw)
+    (h1 : t1.wins[ch]? = some { cw with rect := { cw.rect with top := cw.rect.top - d, left := cw.rect.left - r } })
+    (hkids : ∀ s ∈ cw.children, ∀ x y, ownerLoc t1 n s x y = ownerLoc t0 n s x y) (x y : Int) :
+    ownerLoc t1 (n + 1) ch x y = ownerLoc t0 (n + 1) ch (x + d) (y + r) := by
+  rw [ownerLoc_unfold, ownerLoc_unfold, h0, h1]
+  simp only
+  have hm : Rect.memb { cw.rect with top := cw.rect.top - d, left := cw.rect.left - r } x y = cw.rect.memb (x + d) (y + r) := by
+    apply Bool.eq_iff_iff.mpr
+    rw [memb_true_iff, memb_true_iff]
+    simp only [Rect.Mem, Rect.bottom, Rect.right]
+    omega
+  rw [hm]
+  have e1 : x - (cw.rect.top - d) = x + d - cw.rect.top := by omega
+  have e2 : y - (cw.rect.left - r) = y + r - cw.rect.left := by omega
+  rw [e1, e2]
+  have hall : ∀ s ∈ cw.children, ownerLoc t1 n s (x + d - cw.rect.top) (y + r - cw.rect.left) =
+      ownerLoc t0 n s (x + d - cw.rect.top) (y + r - cw.rect.left) := fun s hs => hkids s hs _ _
+  rw [findSome?_congr_mem _ _ _ hall]
+
+theorem ownerLoc_isNone_congr (t t' : Tree) (n : Nat) (s : Id) (x y : Int) (h : t'.wins[s]? = t.wins[s]?) :
+    (ownerLoc t' n s x y).isNone = (ownerLoc t n s x y).isNone := by
+  cases n with
+  | zero => rfl
+  | succ m =>
+    rw [ownerLoc_unfold, ownerLoc_unfold, h]
+    cases t.wins[s]? with
+    | none => rfl
+    | some sw =>
+      simp only
+      split
+      · rfl
+      · split
+        · rfl
+        · cases sw.children.findSome? (fun ch => ownerLoc t' m ch (x - sw.rect.top) (y - sw.rect.left)) <;>
+            cases sw.children.findSome? (fun ch => ownerLoc t m ch (x - sw.rect.top) (y - sw.rect.left)) <;> rfl
+
+theorem findSome?_transfer {α β : Type} (f1 f0 : α → Option β) (o : β) : ∀ (cs : List α),
+    (∀ s ∈ cs, (f1 s).isNone = (f0 s).isNone) → (∀ s ∈ cs, f1 s = some o → f0 s = some o) →
+    cs.findSome? f1 = some o → cs.findSome? f0 = some o := by
+  intro cs
+  induction cs with
+  | nil => intro _ _ h; cases h
+  | cons a rest ih =>
+    intro hn hs h
+    simp only [List.findSome?_cons] at h ⊢
+    have hna := hn a List.mem_cons_self
+    cases h1 : f1 a with
+    | some o' =>
+      rw [h1] at h
+      simp only [Option.some.injEq] at h
+      subst h
+      rw [hs a List.mem_cons_self h1]
+    | none =>
+      rw [h1] at h hna
+      simp only at h
+      cases h0 : f0 a with
+      | some o' => rw [h0] at hna; cases hna
+      | none =>
+        simp only
+        exact ih (fun s hs' => hn s (List.mem_cons_of_mem _ hs')) (fun s hs' => hs s (List.mem_cons_of_mem _ hs')) h
+
+theorem findSome?_none_transfer {α β : Type} (f1 f0 : α → Option β) : ∀ (cs : List α),
+    (∀ s ∈ cs, (f1 s).isNone = (f0 s).isNone) → cs.findSome? f1 = none → cs.findSome? f0 = none := by
+  intro cs hn h
+  rw [List.findSome?_eq_none_iff] at h ⊢
+  intro s hs
+  have := hn s hs
+  rw [h s hs] at this
+  cases h0 : f0 s with
+  | none => rfl
+  | some o => rw [h0] at this; cases this
+
+/-- A window not strictly below `win` is not one of its children. -/
+theorem not_child_of_not_below (t1 : Tree) (hwf : WFp t1) (win : Id) (ww : Win) (hww1 : t1.wins[win]? = some ww) (a : Id)
+    (hnb : ¬ (Anc t1 win a ∧ a ≠ win)) (hord : ∀ ch ∈ ww.children, ch ≠ win) : a ∉ ww.children := by
+  intro hc
+  obtain ⟨cw, hcw, hcp, _⟩ := hwf.child win ww hww1 a hc
+  exact hnb ⟨Anc.step hcw hcp (Anc.refl win), hord a hc⟩
+
+/-- **Outside the subtree of the scrolled window nothing changes**: an owner, in the tree with the children moved, that
+    does not lie below the scrolled window is the owner in the tree as it was. -/
+theorem ownerLoc_moved_back (t0 t1 : Tree) (win : Id) (ww : Win) (d r : Int) (hmv : Moved t0 t1 ww.children d r)
+    (hwf1 : WFp t1) (hww1 : t1.wins[win]? = some ww) (hord : ∀ ch ∈ ww.children, ch ≠ win) :
+    ∀ (n : Nat) (a : Id) (x y : Int) (o : Id × Int × Int), ¬ (Anc t1 win a ∧ a ≠ win) →
+      ownerLoc t1 n a x y = some o → ¬ Anc t1 win o.1 → ownerLoc t0 n a x y = some o := by
+  intro n
+  induction n with
+  | zero => intro a x y o _ h; cases h
+  | succ m ih =>
+    intro a x y o hnb h hno
+    by_cases haw : a = win
+    · subst haw
+      exact absurd (ownerLoc_anc t1 hwf1 (m + 1) a x y o.1 o.2.1 o.2.2 h) hno
+    · have hrec := hmv.other a (not_child_of_not_below t1 hwf1 win ww hww1 a hnb hord)
+      rw [ownerLoc_unfold] at h ⊢
+      rw [hrec] at h
+      cases hw : t0.wins[a]? with
+      | none => rw [hw] at h; cases h
+      | some aw =>
+        rw [hw] at h
+        simp only at h ⊢
+        have hw1 : t1.wins[a]? = some aw := hrec.trans hw
+        -- the children of `a` are not strictly below `win` either, so they are not moved
+        have hkid : ∀ s ∈ aw.children, ¬ (Anc t1 win s ∧ s ≠ win) := by
+          intro s hs hx
+          obtain ⟨sw, hsw, hsp, _⟩ := hwf1.child a aw hw1 s hs
+          exact hnb ⟨anc_parent_down hx.1 (Ne.symm hx.2) hsw hsp, haw⟩
+        have hnone : ∀ s ∈ aw.children,
+            (ownerLoc t1 m s (x - aw.rect.top) (y - aw.rect.left)).isNone =
+            (ownerLoc t0 m s (x - aw.rect.top) (y - aw.rect.left)).isNone := fun s hs =>
+          ownerLoc_isNone_congr t0 t1 m s _ _
+            (hmv.other s (not_child_of_not_below t1 hwf1 win ww hww1 s (hkid s hs) hord))
+        split at h
+        · cases h
+        · rename_i hg1
+          split at h
+          · cases h
+          · rename_i hg2
+            rw [if_neg hg1, if_neg hg2]
+            cases hfs : aw.children.findSome? (fun ch => ownerLoc t1 m ch (x - aw.rect.top) (y - aw.rect.left)) with
+            | some o' =>
+              rw [hfs] at h
+              simp only [Option.some.injEq] at h
+              subst h
+              rw [findSome?_transfer _ _ o' aw.children hnone
+                (fun s hs hso => ih s _ _ o' (hkid s hs) hso hno) hfs]
+            | none =>
+              rw [hfs] at h
+              rw [findSome?_none_transfer _ _ aw.children hnone hfs]
+              exact h
+
+/-! ### the visible-region computation does not read the children of the scrolled window -/
+
+theorem get_congr {t t' : Tree} {x : Id} (h : t'.wins[x]? = t.wins[x]?) : WinTree.get t' x = WinTree.get t x := by
+  unfold WinTree.get; rw [h]
+
+theorem subtractSiblings_congr (t t' : Tree) (win : Id) : ∀ (cs : List Id) (v : List Rect),
+    (∀ s ∈ cs, t'.wins[s]? = t.wins[s]?) → subtractSiblings t' win cs v = subtractSiblings t win cs v := by
+  intro cs
+  induction cs with
+  | nil => intro v _; rfl
+  | cons s rest ih =>
+    intro v h
+    simp only [subtractSiblings]
+    by_cases hsw : s = win
+    · simp only [hsw, if_true]
+    · simp only [hsw, if_false, bind, Bind.bind]
+      rw [get_congr (h s List.mem_cons_self)]
+      cases WinTree.get t s with
+      | ub e => rfl
+      | ok sw =>
+        simp only
+        have ih' := fun v' => ih v' (fun q hq => h q (List.mem_cons_of_mem _ hq))
+        cases hv : sw.isVisible with
+        | false => simp only [Bool.not_false, if_true]; exact ih' v
+        | true =>
+          simp only [Bool.not_true, Bool.false_eq_true, if_false]
+          cases rsSub v sw.rect with
+          | ub e => rfl
+          | ok v1 => exact ih' v1
+
+/-- Windows on the way from the scrolled window to the root, and their siblings, are not children of the scrolled
+    window. -/
+theorem clipToAncestors_congr (t0 t1 : Tree) (win : Id) (hs0 : WStruct t0)
+    (hsame : ∀ x, @LE.le Nat _ x win → t1.wins[x]? = t0.wins[x]?) :
+    ∀ (k : Nat) (a : Id) (aT aL : Int) (rect : Rect), Anc t0 a win →
+      clipToAncestors t1 k a aT aL rect = clipToAncestors t0 k a aT aL rect := by
+  intro k
+  induction k with
+  | zero => intro a aT aL rect _; rfl
+  | succ n ih =>
+    intro a aT aL rect hanc
+    have ha := anc_le t0 hs0.ord hs0.pc hanc
+    simp only [clipToAncestors, bind, Bind.bind]
+    rw [get_congr (hsame a ha)]
+    cases hg : WinTree.get t0 a with
+    | ub e => rfl
+    | ok aw =>
+      have haw := get_ok hg
+      simp only
+      cases hp : aw.parent with
+      | none => rfl
+      | some p =>
+        simp only
+        have hlt := parent_lt t0 hs0.ord hs0.pc a aw p haw.1 hp
+        rw [get_congr (hsame p (by omega))]
+        cases WinTree.get t0 p with
+        | ub e => rfl
+        | ok pw =>
+          simp only
+          cases Rect.intersect rect ⟨-(aT + aw.rect.top), -(aL + aw.rect.left), pw.rect.lines, pw.rect.cols⟩ with
+          | none => rfl
+          | some r1 => exact ih p _ _ r1 (hanc.parent_up haw.1 hp)
+
+theorem scrollWalk_congr (t0 t1 : Tree) (pens : Array (Option Pen)) (win : Id) (ww : Win) (hs0 : WStruct t0)
+    (hww : t0.wins[win]? = some ww)
+    (hsame : ∀ x, x ∉ ww.children → t1.wins[x]? = t0.wins[x]?) :
+    ∀ (k : Nat) (a : Id) (vis : List Rect) (aT aL : Int) (pen : Pen), Anc t0 a win →
+      scrollWalk t1 pens k a vis aT aL pen = scrollWalk t0 pens k a vis aT aL pen := by
+  have hle : ∀ x, @LE.le Nat _ x win → x ∉ ww.children := by
+    intro x hx hc
+    have := hs0.ord win ww hww x hc
+    omega
+  intro k
+  induction k with
+  | zero => intro a vis aT aL pen _; rfl
+  | succ n ih =>
+    intro a vis aT aL pen hanc
+    have ha := anc_le t0 hs0.ord hs0.pc hanc
+    simp only [scrollWalk, bind, Bind.bind]
+    rw [get_congr (hsame a (hle a ha))]
+    cases hg : WinTree.get t0 a with
+    | ub e => rfl
+    | ok aw =>
+      have haw := get_ok hg
+      simp only
+      cases hv : aw.isVisible with
+      | false => rfl
+      | true =>
+        simp only [Bool.not_true, Bool.false_eq_true, if_false]
+        cases hp : aw.parent with
+        | none => rfl
+        | some p =>
+          simp only
+          have hlt := parent_lt t0 hs0.ord hs0.pc a aw p haw.1 hp
+          rw [get_congr (hsame p (hle p (by omega)))]
+          cases hgp : WinTree.get t0 p with
+          | ub e => rfl
+          | ok pw =>
+            have hpw := get_ok hgp
+            simp only
+            have hsib : ∀ s ∈ pw.children, t1.wins[s]? = t0.wins[s]? := by
+              intro s hs
+              apply hsame
+              intro hc
+              obtain ⟨_, hsw, hsp, _⟩ := hs0.ok.wf.child p pw hpw.1 s hs
+              obtain ⟨_, hsw', hsp', _⟩ := hs0.ok.wf.child win ww hww s hc
+              rw [hsw] at hsw'; cases hsw'
+              rw [hsp] at hsp'
+              have : @Eq Nat p win := by cases hsp'; rfl
+              omega
+            rw [subtractSiblings_congr t0 t1 a pw.children _ hsib]
+            cases subtractSiblings t0 a pw.children (RectSet.translate vis aw.rect.top aw.rect.left) with
+            | ub e => rfl
+            | ok v2 => exact ih p v2 _ _ _ (hanc.parent_up haw.1 hp)
+
 end WinFlush
 end Tickit
